@@ -36,7 +36,8 @@ Spec (plain dict; numpy arrays allowed, `common.jsonable` makes it JSON):
   gases: [{'mol':'H2O','type':'constant','mix':1e-4} | {'mol':..,'type':'array','mix':[...]}]
   chem_kind: absent (TaurexChemistry) | 'table' (plugin-style Chemistry subclass) | 'makefree-file' (ChemistryFile wrapped
              with MakeFreeMixin; then chem_file: {'gases': [...], 'table': [gas][layer]} and `gases` are the free gases)
-  opacities: [{'mol','wn','t','p','xsec','mode'}]        cia: [{'pair','wn','t','xsec'}]
+  opacities: [{'mol','wn','t','p','xsec','mode'[,'wn_dtype': numpy dtype name of the stored wavenumber axis, default float64]}]
+  cia: [{'pair','wn','t','xsec'}]
   contributions: [{'type':'absorption'} | {'type':'cia','pairs':[..]} | {'type':'rayleigh'} |
                   {'type':'clouds','clouds_pressure':..} | {'type':'flatmie','flat_mix_ratio','flat_bottomP','flat_topP'} |
                   {'type':'leemie','lee_mie_radius','lee_mie_q','lee_mie_mix_ratio','lee_mie_bottomP','lee_mie_topP'} |
@@ -76,9 +77,14 @@ def reset_caches():
     g['deactive_molecules'] = None
 
 
-def MemOpacity(mol, wn, tgrid, pgrid_pa, xsec, mode='linear'):
+def MemOpacity(mol, wn, tgrid, pgrid_pa, xsec, mode='linear', wn_dtype=None):
     from taurex.opacity.interpolateopacity import InterpolatingOpacity
     wn = np.asarray(wn, float)
+    if wn_dtype is not None:
+        # a table whose wavenumber AXIS is stored with another dtype (integer / single precision: what np.arange, a text
+        # loader or a user-made file produce); the values must be representable (whole numbers)
+        assert np.array_equal(wn.astype(wn_dtype).astype(float), wn)
+        wn = wn.astype(wn_dtype)
     tgrid = np.asarray(tgrid, float)
     pgrid_pa = np.asarray(pgrid_pa, float)
     xsec = np.asarray(xsec, float)
@@ -167,7 +173,8 @@ def gen_cia(rng, pair, wn, log10_lo, log10_hi, nT=3, zero=False):
 def spec_install(spec):
     reset_caches()
     for o in spec.get('opacities', []):
-        register_opacity(MemOpacity(o['mol'], o['wn'], o['t'], o['p'], o['xsec'], o.get('mode', 'linear')))
+        register_opacity(MemOpacity(o['mol'], o['wn'], o['t'], o['p'], o['xsec'], o.get('mode', 'linear'),
+                                    o.get('wn_dtype')))
     for c in spec.get('cia', []):
         register_cia(MemCIA(c['pair'], c['wn'], c['t'], c['xsec']))
 
